@@ -278,19 +278,22 @@ def getRecursive : Nat → JVal → Bytes → Nat → List Nat → Outcome GetRe
 
 def uint32Max : Nat := 4294967295
 
+/-- the part of json_pointer_get_internal after the `!obj` test -/
+def getInternalBody (obj : JVal) (p : Bytes) : Outcome GetRes := do
+  let path := p ++ [0]
+  let c ← rd path 0 "path[0]"
+  if c = 0 then
+    pure { rc := 0, pos := [], val := obj, parent := .set none, key := .set none,
+           index := .set (uint32Max % 2 ^ (8 * ptrIndexFieldBytes)) }
+  else do
+    let s ← cstrAt path 0 "strdup(path)"
+    let copy := s ++ [0]
+    getRecursive copy.length obj copy 0 []
+
 def getInternal (obj : JVal) (p : Bytes) : Outcome GetRes :=
   match obj with
   | .null => pure (GetRes.fail .EINVAL)                  -- !obj
-  | _ => do
-    let path := p ++ [0]
-    let c ← rd path 0 "path[0]"
-    if c = 0 then
-      pure { rc := 0, pos := [], val := obj, parent := .set none, key := .set none,
-             index := .set (uint32Max % 2 ^ (8 * ptrIndexFieldBytes)) }
-    else do
-      let s ← cstrAt path 0 "strdup(path)"
-      let copy := s ++ [0]
-      getRecursive copy.length obj copy 0 []
+  | _ => getInternalBody obj p
 
 /-- what `json_pointer_get` / `json_pointer_getf` report: return code, errno, and `*res`
 (`node = none`: `*res` not written) -/
@@ -307,18 +310,20 @@ def get (obj : JVal) (p : Bytes) : Outcome Got := do
   else pure { rc := 0, node := some (r.pos, r.val) }
 
 /-- int json_pointer_getf(obj, &res, fmt, ...): `out` = the bytes vasprintf produced -/
+def getfBody (obj : JVal) (out : Bytes) : Outcome Got := do
+  let copy := out ++ [0]
+  let c ← rd copy 0 "path_copy[0]"
+  if c = 0 then pure { rc := 0, node := some ([], obj) }
+  else do
+    -- json_pointer_object_get_recursive
+    let r ← getRecursive copy.length obj copy 0 []
+    if r.rc ≠ 0 then pure { rc := r.rc, errno := r.errno }
+    else pure { rc := 0, node := some (r.pos, r.val) }
+
 def getf (obj : JVal) (out : Bytes) : Outcome Got :=
   match obj with
-  | .null => pure { rc := -1, errno := .EINVAL }
-  | _ => do
-    let copy := out ++ [0]
-    let c ← rd copy 0 "path_copy[0]"
-    if c = 0 then pure { rc := 0, node := some ([], obj) }
-    else do
-      -- json_pointer_object_get_recursive
-      let r ← getRecursive copy.length obj copy 0 []
-      if r.rc ≠ 0 then pure { rc := r.rc, errno := r.errno }
-      else pure { rc := 0, node := some (r.pos, r.val) }
+  | .null => pure { rc := -1, errno := .EINVAL }         -- !obj
+  | _ => getfBody obj out
 
 /-! ### set -/
 
@@ -372,6 +377,14 @@ def objectAdd (kvs : List (Bytes × JVal)) (key : Bytes) (v : JVal) : List (Byte
   | some (i, old) => (replaceVal key v kvs, i, liveNodes old)
   | none => (kvs ++ [(key, v)], kvs.length, 0)
 
+/-- `path[0] == '-' && path[1] == '\0'` (the second byte is read only after the first matched) -/
+def isDashC (buf : Bytes) (path : Nat) : Outcome Bool := do
+  let c0 ← rd buf path "path[0]"
+  if c0 = 45 then do
+    let c1 ← rd buf (path + 1) "path[1]"
+    pure (c1 == 0)
+  else pure false
+
 /-- static int json_pointer_set_single_path(parent, const char *path, value, array_set_cb, priv)
 with `array_set_cb = json_object_array_put_idx_cb`.
 `root`/`ppos`: the document and the position of `parent` in it; `buf`/`path`: the C string. -/
@@ -379,11 +392,7 @@ def setSinglePath (mem : Nat → Bool) (root : JVal) (ppos : List Nat) (parent :
     (buf : Bytes) (path : Nat) (v : JVal) : Outcome SetRes :=
   match parent with
   | .arr xs => do
-    let c0 ← rd buf path "path[0]"
-    let dash ← (if c0 = 45 then do
-        let c1 ← rd buf (path + 1) "path[1]"
-        pure (c1 == 0)
-      else pure false)
+    let dash ← isDashC buf path
     if dash then
       match arrayAdd mem xs v .none with
       | .inl e => pure (SetRes.fail root e)
